@@ -2,7 +2,9 @@ package props
 
 import (
 	"fmt"
+	"go/constant"
 	"go/types"
+	"sort"
 
 	"golang.org/x/tools/go/ssa"
 
@@ -87,14 +89,92 @@ func runC15(c *Ctx) Info {
 			}
 		}
 	}
+	nChroma := c.subsampleRule()
+	c.C.ExpectControl("SUBSAMPLE")
 	c.C.ExpectControl("STRIDE")
 	c.C.Note("image.* member uses in library+controls: %d; pixel-buffer field reads: %d", nImgUses, nPix)
 	return Info{
-		Explanation: "Rule STRIDE over the SSA of every library function: each read of a pixel-buffer field (Pix / Y / Cb / Cr) of a standard-library image type must be accompanied, in the same function, by a read of the matching stride field or a call of the matching offset method. This is a necessary condition of the clause 'return width x height x components tightly packed samples' for decoders that repack an image/jpeg result; the +-2 grey-level agreement itself is not decided.",
+		Explanation: "Rule STRIDE over the SSA of every library function: each read of a pixel-buffer field (Pix / Y / Cb / Cr) of a standard-library image type must be accompanied, in the same function, by a read of the matching stride field or a call of the matching offset method. This is a necessary condition of the clause 'return width x height x components tightly packed samples' for decoders that repack an image/jpeg result; the +-2 grey-level agreement itself is not decided. Rule SUBSAMPLE: a function that indexes the Cb / Cr planes of an image.YCbCr itself (instead of At / YCbCrAt / COffset) must dispatch on SubsampleRatio over every ratio the image package declares, or end its dispatch in an error: a ratio that falls into a default written for another one reads the wrong chroma sample (or past the plane).",
 		DoesNotCover: "numeric agreement with image/jpeg, MCU addressing, chroma upsampling, restart markers (all value-level)",
 		Trusted:     commonTrusted,
-		Extra:       map[string]any{"pix_field_reads": nPix, "image_member_uses": nImgUses},
+		Extra:       map[string]any{"pix_field_reads": nPix, "image_member_uses": nImgUses, "direct_chroma_readers": nChroma},
 	}
+}
+
+// subsampleRule (SUBSAMPLE): direct chroma-plane readers must be exhaustive over image.YCbCrSubsampleRatio.
+func (c *Ctx) subsampleRule() int {
+	pk := c.P.ByPath["image"]
+	if pk == nil {
+		return 0
+	}
+	tn, _ := pk.Types.Scope().Lookup("YCbCrSubsampleRatio").(*types.TypeName)
+	if tn == nil {
+		return 0
+	}
+	named := tn.Type().(*types.Named)
+	consts := map[int64]string{}
+	for _, name := range pk.Types.Scope().Names() {
+		if k, ok := pk.Types.Scope().Lookup(name).(*types.Const); ok && types.Identical(k.Type(), named) {
+			if v, ok := constant.Int64Val(k.Val()); ok {
+				consts[v] = name
+			}
+		}
+	}
+	dispatches := map[*ssa.Function]*progDispatch{}
+	for _, d := range findDispatches(c, named) {
+		dispatches[d.fn] = d
+	}
+	n := 0
+	for _, fn := range c.scopeFuncs() {
+		direct, viaOffset := false, false
+		var at ssa.Instruction
+		for _, b := range fn.Blocks {
+			for _, ins := range b.Instrs {
+				if v, ok := ins.(ssa.Value); ok {
+					if owner, f, _, ok := fieldOf(v); ok && owner != nil && owner.Obj().Pkg() != nil && owner.Obj().Pkg().Path() == "image" && owner.Obj().Name() == "YCbCr" && (f.Name() == "Cb" || f.Name() == "Cr") {
+						direct = true
+						if at == nil {
+							at = ins
+						}
+					}
+				}
+				if call, ok := ins.(ssa.CallInstruction); ok {
+					if callee := call.Common().StaticCallee(); callee != nil && callee.Signature.Recv() != nil {
+						if rn := namedOfRecv(callee.Signature.Recv().Type()); rn != nil && rn.Obj().Pkg() != nil && rn.Obj().Pkg().Path() == "image" && rn.Obj().Name() == "YCbCr" && callee.Name() == "COffset" {
+							viaOffset = true
+						}
+					}
+				}
+			}
+		}
+		if !direct {
+			continue
+		}
+		n++
+		construct := "chroma planes of image.YCbCr"
+		switch {
+		case viaOffset:
+			c.add("SUBSAMPLE", fn, construct, report.Discharged, c.P.Pos(at.Pos()), "chroma offsets come from YCbCr.COffset, which handles every subsample ratio")
+		case dispatches[fn] == nil:
+			c.add("SUBSAMPLE", fn, construct, report.Violated, c.P.Pos(at.Pos()), "the Cb / Cr planes are indexed directly without COffset and without any dispatch on SubsampleRatio: only one sampling layout can be right")
+		default:
+			d := dispatches[fn]
+			var missing []string
+			for v, name := range consts {
+				if _, ok := d.cases[v]; !ok {
+					missing = append(missing, name)
+				}
+			}
+			sort.Strings(missing)
+			// a default that stands for exactly one remaining ratio is a complete dispatch
+			if len(missing) > 1 && !d.hasDef {
+				c.add("SUBSAMPLE", fn, construct, report.Violated, c.P.Pos(at.Pos()), fmt.Sprintf("the Cb / Cr planes are indexed directly and the dispatch on SubsampleRatio does not list %v, which fall into a default written for another ratio (not an error): a stream with that sampling is decoded from the wrong chroma samples or indexes past the plane", missing))
+			} else {
+				c.add("SUBSAMPLE", fn, construct, report.Discharged, c.P.Pos(at.Pos()), "dispatch on SubsampleRatio lists every declared ratio or ends in an error")
+			}
+		}
+	}
+	return n
 }
 
 func namedOfRecv(t types.Type) *types.Named {
